@@ -261,7 +261,7 @@ Section Inv.
       destruct (encode (c_ty c) (c_target c) (c_port c)); [|now apply good_raise].
       apply good_plain; auto.
     - (* _parse_request_reply *)
-      destruct (nlen (buf s) <? 8); [now apply good_id|].
+      destruct (nlen (buf s) <? c_MIN_REPLY); [now apply good_id|].
       destruct (buf s) as [|v [|rep [|x [|typ tl]]]]; try now apply good_id.
       set (d := v :: rep :: x :: typ :: tl).
       destruct (negb (code v =? 5)); [now apply IHf|].
